@@ -112,7 +112,7 @@ CHECKS = {
     text="rooc's own labelling logic (raw microlp status/error, requested gap, reported value, proven bound -> returned label or error) is modelled in Coq with the theorems wrap_never_mislabels "
          "(optimal only if proven and, under a positive gap, the reported value - constant term included - is within that gap of the proven bound; feasible for an incumbent; an error when interrupted before any "
          "feasible point or when options are invalid) and optimal_label_within_gap_of_optimum (hence within the gap of the TRUE optimum whenever bound and value bracket it, which is checked against the certified optimum "
-         "on every run). Tied to the code by comparing every observed (raw status and bound via guarded hooks, gap, value, returned label) tuple over models x 40 (time limit, MIP gap) settings incl. 0, 1us, "
+         "on every run). Tied to the code by comparing every observed (raw status and bound via guarded hooks, gap, value, returned label) tuple over models x 45 (time limit, MIP gap) settings incl. 0, 1us, "
          "negative/NaN/infinite gaps. Every returned point goes through the Coq-verified feasibility checker; an Optimal label is compared with the optimum certified by exhaustive enumeration inside Coq. "
          "Genuine defects F10 (status ignored) and F47 (gap measured without the objective's constant term) were repaired.",
     design_ref="DESIGN.md section 4 / C15",
